@@ -2,6 +2,8 @@
 //!  (an E1 round trip "expression printer -> expr::parse_expr" was tried and dropped: the printer does not print symbol
 //!   types, which parse_expr needs on a symbol's first occurrence - there is no round-trip contract to check)
 //!  E2  count_expr_uses agrees with the definition in spec/UseCount.tla on exported DAGs.
+//!  E4  system::analysis::analyze_for_serialization (the signal order used by the encoder and both writers) against
+//!      spec/Trace_SigOrder.tla on generated systems.
 //!  E3  TypeCheck::type_check / get_type agree with the typing of spec/Expr.tla on every node the builders produce from
 //!      the descriptors of spec/TypeCkGen.tla (operators over leaves of every kind and width, well-typed or not).
 use crate::ex::*;
@@ -97,4 +99,34 @@ pub fn run_typeck(args: &[String]) {
     let n = out.n;
     out.finish();
     println!("{}", json!({"records": n, "outcomes": counts}));
+}
+
+/// E4: one record per generated system and include_outputs flag
+pub fn run_sigorder(args: &[String]) {
+    use patronus::system::analysis::{analyze_for_serialization, SerializeSignalKind};
+    let mut out = Out::new(flag(args, "--out").expect("--out"));
+    let seed = env_seed();
+    for i in 0..flag_u(args, "--systems", 0) {
+        let mut rng = seed_rng(seed.wrapping_mul(7000003).wrapping_add(i));
+        let mut ctx = Context::default();
+        let mut cfg = crate::sys::SysCfg::tiny();
+        cfg.max_bits = 8; cfg.max_states = 4; cfg.depth = 3;
+        let sys = crate::sys::gen_sys(&mut ctx, &mut rng, &cfg, "").sys;
+        for inc in [true, false] {
+            let meta = match guarded(|| analyze_for_serialization(&ctx, &sys, inc)) { Ok(m) => m, Err((loc, msg)) => {
+                out.put(&json!({"ev":"SigOrder","id":format!("o{i}:{inc}"),"kind":"panic","loc":loc,"msg":msg,"inc":if inc {1} else {0},"sys":{},"order":[]}));
+                continue;
+            } };
+            let exprs: Vec<ExprRef> = meta.signal_order.iter().map(|r| r.expr).collect();
+            let sysj = crate::sys::export_system_extra(&ctx, &sys, false, &exprs);
+            let order: Vec<J> = meta.signal_order.iter().map(|r| json!({
+                "kind": match r.kind { SerializeSignalKind::BadState => "bad", SerializeSignalKind::Constraint => "constraint", SerializeSignalKind::Output => "output",
+                                       SerializeSignalKind::Input => "input", SerializeSignalKind::StateInit => "init", SerializeSignalKind::StateNext => "next", SerializeSignalKind::None => "none" },
+                "next": r.uses.next, "init": r.uses.init, "other": r.uses.other, "named": if r.name.is_some() {1} else {0}})).collect();
+            out.put(&json!({"ev":"SigOrder","id":format!("o{i}:{inc}"),"kind":"ok","loc":"","msg":"","inc":if inc {1} else {0},"sys":sysj,"order":order}));
+        }
+    }
+    let n = out.n;
+    out.finish();
+    println!("{}", json!({"records": n}));
 }
